@@ -225,9 +225,27 @@ Record outcome := {
 Definition mk_outcome (rows : Z) (nexts : N) (err panic : bool) (recs : list value) : outcome :=
   {| o_open_ok := true; o_rows := rows; o_nexts := nexts; o_err := err; o_panic := panic; o_recs := recs |}.
 
+(** the loop of Next (after fix 0d8f069):
+      for rowGroupCursor >= rowGroupCount && len(rowGroups) > 0 { err = readRowGroup(); ... }
+    load row groups until one has a row to deliver or none is left.  Returns the
+    records and row count of the loaded row group (([], 0) when none is left). *)
+Fixpoint load_nonempty (fs : list field) (rgs : list row_group) (s : src)
+  : result (list value * Z * list row_group * src) :=
+  match rgs with
+  | [] => Ok ([], 0%Z, [], s)
+  | rg :: rest =>
+      match read_row_group fs rg s with
+      | Ok (rrecs, s') =>
+          if (0 <? rg_num_rows rg)%Z then Ok (rrecs, rg_num_rows rg, rest, s')
+          else load_nonempty fs rest s'
+      | Err => Err
+      | Panic => Panic
+      end
+  end.
+
 (** One iteration = one call of Next (and, when it returns true, Scan):
       if err == nil && cursor >= rows { return false }
-      if rowGroupCursor >= rowGroupCount { err = readRowGroup(); if err != nil { return false } }
+      for rowGroupCursor >= rowGroupCount && len(rowGroups) > 0 { err = readRowGroup(); if err != nil { return false } }
       cursor++; rowGroupCursor++; return true
     [cur] holds the records of the loaded row group that have not been scanned
     yet; Scan on exhausted fields leaves the caller's (zero) record untouched. *)
@@ -242,14 +260,10 @@ Fixpoint iterate (fuel : nat) (fs : list field) (rows cursor rgcursor rgcount : 
           iterate f fs rows (cursor + 1) (rgcursor' + 1) rgcount' (tl cur') rgs' (nexts + 1)
                   (recs ++ [hd zero_record cur']) s' in
         if (rgcount <=? rgcursor)%Z then
-          match rgs with
-          | [] => deliver [] 0%Z 0%Z [] s
-          | rg :: rest =>
-              match read_row_group fs rg s with
-              | Ok (rrecs, s') => deliver rrecs 0%Z (rg_num_rows rg) rest s'
-              | Err => mk_outcome rows nexts true false recs
-              | Panic => mk_outcome rows nexts false true recs
-              end
+          match load_nonempty fs rgs s with
+          | Ok (cur', rgcount', rgs', s') => deliver cur' 0%Z rgcount' rgs' s'
+          | Err => mk_outcome rows nexts true false recs
+          | Panic => mk_outcome rows nexts false true recs
           end
         else deliver cur rgcursor rgcount rgs s
   end.
